@@ -20,8 +20,10 @@ OBLS = [None, [], [{"type": "require_mfa"}], [{"type": "require_level", "attrs":
         [{"type": "require_mfa"}, {"type": "require_reauth", "attrs": {"max_age": 60}}],
         [{"type": "http_challenge", "attrs": {"scheme": "Basic"}}],
         [{"type": {"vendor": "x", "name": "audit"}}, {"type": "require_mfa"}], [{"type": ["require_mfa"]}, {"type": "require_level", "attrs": {"min": 2}}],
-        [{"type": "http_challenge", "attrs": {"scheme": 1}}], [{"type": "require_consent", "attrs": {"key": ""}}]]
-CTXS = [{"now": DT_NOW, "mfa": True}, {"now": "2025-01-01T00:00:00Z"}, {"now": 1735689600, "n": 5}, {}, {"mfa": True}, {"mfa": True, "auth_level": 3, "reauth_age_seconds": 5}, {"auth_level": "high"},
+        [{"type": "http_challenge", "attrs": {"scheme": 1}}], [{"type": "require_consent", "attrs": {"key": ""}}],
+        [{"type": "require_level", "attrs": {"min": 1}}, {"type": "require_level", "attrs": {"min": 3}}],
+        [{"type": "require_reauth", "attrs": {"max_age": 3600}}, {"type": "require_mfa"}, {"type": "require_reauth", "attrs": {"max_age": 60}}]]
+CTXS = [{"auth_level": 2, "mfa": True, "reauth_age_seconds": 900}, {"now": DT_NOW, "mfa": True}, {"now": "2025-01-01T00:00:00Z"}, {"now": 1735689600, "n": 5}, {}, {"mfa": True}, {"mfa": True, "auth_level": 3, "reauth_age_seconds": 5}, {"auth_level": "high"},
         {"mfa": 0, "n": 5}, {"mfa": True, "n": 5, "reauth_age_seconds": 500}]
 REL_CONDS = [{"rel": "viewer"}, {"rel": {"relation": "owner", "resource": {"attr": "resource.attrs.parent"}}},
              {"and": [{"rel": "viewer"}, {"rel": "viewer"}]}, {"or": [{"rel": "editor"}, {"rel": "viewer"}]},
